@@ -155,7 +155,11 @@ func (s *SourceSplitter) Close() error {
 
 // Checkpoint returns a snapshot of the splitter's state for checkpointing.
 func (s *SourceSplitter) Checkpoint() []byte {
-	splits := s.splitTracker.AssignedSplits()
+	// Every tracked split is saved, not only the assigned ones, together with
+	// the discovery position: a split that is waiting for its parents was
+	// discovered before that position and would never be found again, and its
+	// own children would be handed out as if they had no parent.
+	splits := s.splitTracker.KnownSplits()
 	pbShards := make([]*kinesispb.SourceSplitterShard, len(splits))
 	for i, shard := range splits {
 		pbShards[i] = shard.toProto()
@@ -163,7 +167,7 @@ func (s *SourceSplitter) Checkpoint() []byte {
 
 	bs, err := proto.Marshal(&kinesispb.SplitterState{
 		AssignedShards:      pbShards,
-		LastAssignedShardId: s.splitTracker.LastAssignedSplitID,
+		LastAssignedShardId: s.splitTracker.DiscoveryCursor(),
 	})
 	if err != nil {
 		panic(err)
